@@ -104,6 +104,26 @@ Theorem C10_timeout_never_hangs : forall pl rq,
 Proof. exact timeout_never_hangs. Qed.
 Print Assumptions C10_timeout_never_hangs.
 
+(** "the client finally sees the outcome of the last attempt": whenever a request ends with a
+    failure result other than failureCode, the client gets the gateway's own failure response
+    for that result - never the backend response of any attempt (e.g. one whose header arrived
+    but whose body broke, stalled past the deadline or exceeded the size limit) *)
+Theorem C10_failure_response_is_gateways : forall pl rq r s, pool_ok pl ->
+  po_result (pool_handle pl true rq) = PResult r s -> r <> RNone -> r <> RFailureCode ->
+  po_visible (pool_handle pl true rq) = VGateway s.
+Proof. exact failure_response_is_gateways. Qed.
+Print Assumptions C10_failure_response_is_gateways.
+
+(** a backend response reaches the client only as the response of the LAST attempt, and only
+    with the empty result or failureCode *)
+Theorem C10_backend_response_is_last_attempts : forall pl rq j, pool_ok pl ->
+  po_visible (pool_handle pl true rq) = VBackend j ->
+  j = (po_attempts (pool_handle pl true rq) - 1)%nat /\
+  exists s, po_result (pool_handle pl true rq) = PResult RNone s \/
+            po_result (pool_handle pl true rq) = PResult RFailureCode s.
+Proof. exact backend_response_is_last_attempts. Qed.
+Print Assumptions C10_backend_response_is_last_attempts.
+
 (** a CircuitBreaker around the call records exactly one outcome per client request,
     however many attempts the request contained (panic path included); the record is a
     failure iff the request did not end with the empty result *)
